@@ -21,6 +21,33 @@ use std::task::{Context, Poll, Wake, Waker};
 
 type RunQ = Arc<std::sync::Mutex<std::collections::BTreeSet<usize>>>;
 
+/// see `World::start_op_eager`
+struct Eager {
+    fut: Option<Pin<Box<dyn Future<Output = ()>>>>,
+    h: *mut ContextHandle,
+    spec: *mut OpSpec,
+}
+impl Eager {
+    /// the library future first, then what it borrowed (the handle clone goes away with the operation)
+    fn release(&mut self) {
+        self.fut = None;
+        if !self.h.is_null() {
+            // SAFETY: created by Box::into_raw in start_op_eager; the only borrower was `fut`
+            unsafe {
+                drop(Box::from_raw(self.h));
+                drop(Box::from_raw(self.spec));
+            }
+            self.h = std::ptr::null_mut();
+            self.spec = std::ptr::null_mut();
+        }
+    }
+}
+impl Drop for Eager {
+    fn drop(&mut self) {
+        self.release();
+    }
+}
+
 fn give_back(h: ContextHandle, ret: Option<Rc<RefCell<Option<ContextHandle>>>>) {
     match ret {
         Some(slot) => *slot.borrow_mut() = Some(h),
@@ -386,6 +413,90 @@ impl World {
             let h = self.worker.borrow().as_ref().expect("harness: worker handle is busy").clone();
             self.start_op_ret(spec, h, None)
         }
+    }
+
+    /// Start an operation whose library future is CREATED now (`handle.publish(opts)` is called at
+    /// once) although it is first polled later: whatever an implementation does at call time instead
+    /// of at the first poll (drawing identifiers, measuring the packet) happens here, ahead of
+    /// everything that is started before this future gets its first poll. The handle clone and the
+    /// option values are kept on the heap next to the future and freed after it.
+    pub fn start_op_eager(&mut self, spec: OpSpec) -> usize {
+        let op = self.ops.len();
+        let sh = self.sh.clone();
+        sh.borrow_mut().rsps.push(None);
+        match &spec {
+            OpSpec::Publish(p) if p.qos() == 0 => self.fnf_ops.push(op),
+            OpSpec::Disconnect(_) => self.fnf_ops.push(op),
+            _ => {}
+        }
+        // stable heap addresses; released by `Eager::drop` after the future that borrows them
+        let hp: *mut ContextHandle = Box::into_raw(Box::new(self.handle()));
+        let sp: *mut OpSpec = Box::into_raw(Box::new(spec));
+        // SAFETY: `hp` and `sp` stay valid and are not touched by anybody else until `Eager::drop`
+        // has dropped the future that borrows them.
+        let (h, spec): (&'static mut ContextHandle, &'static OpSpec) = unsafe { (&mut *hp, &*sp) };
+        let inner: Pin<Box<dyn Future<Output = ()>>> = match spec {
+            OpSpec::Publish(p) => {
+                let f = h.publish(p.opts());
+                Box::pin(async move {
+                    let r = f.await;
+                    let d = unit_result_dig(&r);
+                    sh.borrow_mut().log.push(Ob::Done { op, res: d });
+                })
+            }
+            OpSpec::Subscribe(p) => {
+                let f = h.subscribe(p.opts());
+                Box::pin(async move {
+                    let r = f.await;
+                    let d = match &r {
+                        Ok(rsp) => suback_dig(rsp),
+                        Err(e) => err_dig(e),
+                    };
+                    let mut s = sh.borrow_mut();
+                    if let Ok(rsp) = r {
+                        s.rsps[op] = Some(rsp);
+                    }
+                    s.log.push(Ob::Done { op, res: d });
+                })
+            }
+            OpSpec::Unsubscribe(p) => {
+                let f = h.unsubscribe(p.opts());
+                Box::pin(async move {
+                    let r = f.await;
+                    let d = match &r {
+                        Ok(rsp) => unsuback_dig(rsp),
+                        Err(e) => err_dig(e),
+                    };
+                    sh.borrow_mut().log.push(Ob::Done { op, res: d });
+                })
+            }
+            OpSpec::Ping => {
+                let f = h.ping();
+                Box::pin(async move {
+                    let r = f.await;
+                    let d = unit_result_dig(&r);
+                    sh.borrow_mut().log.push(Ob::Done { op, res: d });
+                })
+            }
+            OpSpec::Disconnect(p) => {
+                let f = h.disconnect(p.opts());
+                Box::pin(async move {
+                    let r = f.await;
+                    let d = unit_result_dig(&r);
+                    sh.borrow_mut().log.push(Ob::Done { op, res: d });
+                })
+            }
+        };
+        let mut eager = Eager { fut: Some(inner), h: hp, spec: sp };
+        let fut: BoxFut = Box::pin(std::future::poll_fn(move |cx| {
+            let r = eager.fut.as_mut().expect("polled after completion").as_mut().poll(cx);
+            if r.is_ready() {
+                eager.release();
+            }
+            r
+        }));
+        self.ops.push(Task::new(format!("op{}", op), fut, Some(op), &self.runq));
+        op
     }
 
     pub fn start_op_on(&mut self, spec: OpSpec, h: ContextHandle) -> usize {
